@@ -127,7 +127,7 @@ class Gen:
         choices += [("newmstr", 4), ("sappend", 4), ("sjoin", 3), ("sadd", 3), ("schar", 4)]
         if m == "unit":
             choices += [("newstr", 6), ("push", 6), ("pushr", 3), ("pop", 6), ("popto", 3), ("oref", 3),
-                        ("clones", 2), ("unclone", 2), ("unload", 1 if self.late else 0)]
+                        ("clones", 2), ("unclone", 2), ("unload", 1 if self.late else 0), ("reclaimu", 0 if self.cyclic else 3)]
         else:
             choices += [("err", 4), ("efun", 12), ("srange", 4), ("rest", 8), ("resto", 2), ("fefun", 6), ("frest", 3), ("reclaim", 3)]
         k = r.weighted(choices)
@@ -437,6 +437,8 @@ class Gen:
                 text = damage(text, r)
             if " " not in text and 0 < len(text) < 200 and not text.startswith("#"):
                 self.emit("%s %s" % (k, text))
+        elif k == "reclaimu":
+            self.emit("reclaimu")
         elif k == "reclaim":
             for o in range(NOBJ):
                 if self.handle[o] and self.obj[o] is not None and self.obj[o].size >= 1:
@@ -829,6 +831,14 @@ class C06(Prop):
                                    "free 0", "free 2", "free 3"])
         # reclaim_objects(): destructed objects referenced from variables (handles; array / mapping key / mapping value /
         # function pointer argument built around them) are released, live ones are kept
+        # unit mode: the walk itself - a destructed object directly in a variable, in an array, in a class, as bound argument of a
+        # function pointer, as key and as value of a mapping (node deleted / value zeroed), behind a live object key, shared twice
+        mk("reclaim-objects-unit", "unit",
+           ["newobj 0", "newobj 1", "newobj 2", "newobj 3", "oref 0 1", "oref 1 2", "newarr 2 3", "aset 2 0 0", "aset 2 1 1", "newmap 3",
+            "newarr 4 2", "mset 3 0 4", "mset 3 1 2", "mset 3 5 1", "newcls 5", "aset 5 1 0", "aset 4 0 5", "newfun 6 3 0", "oref 7 3",
+            "mset 3 7 0", "setvar 0 0 0", "setvar 0 1 2", "setvar 0 2 3", "setvar 3 0 6", "setvar 3 1 2", "reclaimu", "dest 1", "reclaimu",
+            "dest 2", "reclaimu", "reclaimu", "cleanup", "free 0", "free 1", "free 7", "reclaimu", "dest 3", "reclaimu", "free 2", "free 3", "free 4", "free 5",
+            "free 6", "cleanup", "dest 0", "cleanup", "drop 0", "drop 1", "drop 2", "drop 3"])
         mk("reclaim-objects-lpc", "lpc", ["newobj 0", "newobj 1", "newobj 2", "newobjr 3 2", "newarr 0 2", "newmap 1", "setvar 1 0 0",
                                           "reclaim", "dest 0", "dest 3", "reclaim", "reclaim", "cleanup", "dest 2", "cleanup", "reclaim",
                                           "getvar 2 1 0", "dest 1", "reclaim", "cleanup", "free 0", "free 1", "free 2"])
